@@ -32,8 +32,10 @@ meta["confirmed"] = ok
 if ok:
     head = subprocess.run(["git", "-C", "/repo", "log", "--format=%h", "-1"], capture_output=True, text=True).stdout.strip()
     meta["verified_at_repo_head"] = head
-    r = subprocess.run(["git", "-C", "/repo", "apply", os.path.join(dst, "patch.diff")], capture_output=True, text=True)
-    if r.returncode == 0:
+    r = subprocess.run(["git", "-C", "/repo", "apply", os.path.join(dst, "patch.diff")], capture_output=True, text=True) if "--nocheck" not in sys.argv else None
+    if r is None:
+        pass   # the check against /repo is left to tools/seedmatrix.py
+    elif r.returncode == 0:
         try:
             p = subprocess.run([os.path.join(V, "bin/check"), pid, "--tier", "quick"], capture_output=True, text=True, timeout=3000)
             lines = p.stdout.splitlines()
